@@ -442,11 +442,131 @@ func run(c *mc.Ctx, r *mc.Result) {
 	}
 }
 
+// silence redirects the process's stdout and stderr to /dev/null (fox's default log handler writes
+// there) and returns the function that restores them.
+func silence() func() {
+	devnull, err := os.OpenFile(os.DevNull, os.O_WRONLY, 0)
+	if err != nil {
+		return func() {}
+	}
+	o1, _ := syscall.Dup(1)
+	o2, _ := syscall.Dup(2)
+	syscall.Dup2(int(devnull.Fd()), 1)
+	syscall.Dup2(int(devnull.Fd()), 2)
+	return func() {
+		syscall.Dup2(o1, 1)
+		syscall.Dup2(o2, 2)
+		syscall.Close(o1)
+		syscall.Close(o2)
+		devnull.Close()
+	}
+}
+
+// DefCase is a replayable case of the default-handler part.
+type DefCase struct {
+	Name     string `json:"param_name"`
+	CatchAll bool   `json:"catch_all"`
+	Val      int    `json:"val"`
+	Header   bool   `json:"header_written"`
+	Logger   bool   `json:"with_logger"`
+}
+
+var defNames = []string{"id", "method", "status", "location", "latency", "error", "route", "params", "host", "path", "stack", "msg", "time", "level", "source"}
+
+// evalDefault: Recovery() (and optionally Logger()) with fox's own default log handler, on a route
+// whose parameter is named like one of the attribute keys the handler formats specially.
+func evalDefault(cs DefCase) (string, string) {
+	pvs := panicVals()
+	pv := pvs[cs.Val]
+	thrown := pv.mk()
+	opts := []fox.GlobalOption{fox.WithMiddleware(fox.Recovery())}
+	if cs.Logger {
+		opts = []fox.GlobalOption{fox.WithMiddleware(fox.Recovery(), fox.Logger())}
+	}
+	f, err := fox.New(opts...)
+	if err != nil {
+		return "error", err.Error()
+	}
+	pat := "/p/{" + cs.Name + "}"
+	if cs.CatchAll {
+		pat = "/p/*{" + cs.Name + "}"
+	}
+	if _, err := f.Handle("GET", pat, func(c fox.Context) {
+		if cs.Header {
+			c.Writer().WriteHeader(202)
+		}
+		panic(thrown)
+	}); err != nil {
+		return "error", err.Error()
+	}
+	desc := fmt.Sprintf("panic(%s) in the handler of %s (header written: %v, Logger installed: %v), default log handler", pv.name, pat, cs.Header, cs.Logger)
+	rw := fx.NewRW()
+	var escaped any
+	didPanic := false
+	restore := silence()
+	func() {
+		defer func() {
+			if p := recover(); p != nil {
+				escaped, didPanic = p, true
+			}
+		}()
+		f.ServeHTTP(rw, fx.Req("GET", "example.test", "/p/250ms"))
+	}()
+	restore()
+	if pv.abort {
+		if !didPanic || escaped != thrown {
+			return "abort-not-reraised", fmt.Sprintf("http.ErrAbortHandler must be re-raised unchanged, got %v: %s", escaped, desc)
+		}
+		return "", ""
+	}
+	if didPanic {
+		return "panic-escaped", fmt.Sprintf("the panic escaped ServeHTTP (%v): %s", escaped, desc)
+	}
+	want := 500
+	if cs.Header {
+		want = 202
+	}
+	if pv.broken && !cs.Header {
+		want = 0
+	}
+	if !pv.gray && rw.Code != want {
+		return "no-500", fmt.Sprintf("status %d, want %d: %s", rw.Code, want, desc)
+	}
+	return "", ""
+}
+
+func runDefault(c *mc.Ctx, r *mc.Result) {
+	pvs := panicVals()
+	r.Bounds["default-handler"] = fmt.Sprintf("%d parameter names (attribute keys of the log records and others) x {parameter, catch-all} x %d panic values x {nothing written, header written} x {Recovery, Recovery+Logger}, with fox's default log handler", len(defNames), len(pvs))
+	idx := 0
+	for _, n := range defNames {
+		for _, ca := range []bool{false, true} {
+			for vi := range pvs {
+				for _, hd := range []bool{false, true} {
+					for _, lg := range []bool{false, true} {
+						idx++
+						if !c.Mine(idx) {
+							continue
+						}
+						cs := DefCase{Name: n, CatchAll: ca, Val: vi, Header: hd, Logger: lg}
+						class, msg := evalDefault(cs)
+						r.Evaluations++
+						r.DistinctNontrivial++
+						if class != "" {
+							r.Violate("default-handler", class, msg, cs)
+						}
+					}
+				}
+			}
+		}
+	}
+}
+
 func init() {
 	mc.Register(&mc.Check{
 		ID:    "C15",
 		Level: "fault_enumeration",
-		Rule:  "complete product panic value x response progress at the time of the panic x panic site (handler kinds and scopes, user code run while a handler registers routes) x spelling of each credential-bearing request header, plus a panic after every prefix of an Updates / View function body; every case is a distinct fault; all are non-trivial (a panic is injected in each)",
+		Rule:  "complete product panic value x response progress at the time of the panic x panic site (handler kinds and scopes, user code run while a handler registers routes) x spelling of each credential-bearing request header, plus a panic after every prefix of an Updates / View function body; the same containment on fox's own default log handler with parameters named like the record's attribute keys (part default-handler); every case is a distinct fault; all are non-trivial (a panic is injected in each)",
 		Assumptions: []string{
 			"a panic value that merely wraps a broken-connection *net.OpError is not decided by the statement (abstained for the 500 rule only)",
 			"lock release is decided by the shim (locking a held mutex panics instead of hanging)",
@@ -464,6 +584,13 @@ func init() {
 				return "bad case"
 			}
 			_, msg := evalCase(cs)
+			return msg
+		}}, {Name: "default-handler", Run: runDefault, Replay: func(c *mc.Ctx, raw json.RawMessage) string {
+			var cs DefCase
+			if err := json.Unmarshal(raw, &cs); err != nil {
+				return "bad case"
+			}
+			_, msg := evalDefault(cs)
 			return msg
 		}}},
 	})
